@@ -183,6 +183,9 @@ def preceding_guards(node, func):
                 for st in block[: block.index(child)]:
                     if isinstance(st, ast.If) and not st.orelse and not falls_through(st.body):
                         out.append((st.test, False))
+                    elif isinstance(st, ast.If) and st.orelse and falls_through(st.body) != falls_through(st.orelse):
+                        # one arm leaves (raise / return / continue): what follows runs only after the other arm
+                        out.append((st.test, bool(falls_through(st.body))))
                     elif isinstance(st, ast.Assert):
                         out.append((st.test, True))
         if p is func:
